@@ -343,6 +343,79 @@ def run_scenario(env, kind, scenario, scratch, bound, budget, viol, stats, only_
                         stats["directed"] = stats.get("directed", 0) + 1
                         yield sch
 
+        # fourth family (three tasks): a has missed K and is held before its store of K; b evaluates and stores K completely;
+        # c is run i points INTO its look-up of K (it has seen b's 'ready' metadata); a is then run j points into its store
+        # (it has removed b's entry and not yet written its own); c completes, a completes
+        if file_backed and ntasks == 3 and (stats.get("tier") == "thorough" or kind in ("file", "store_file_nested", "store_file_flat")):
+            import itertools
+
+            lim = 7 if stats.get("tier") == "thorough" else 4
+            for K in stored_keys:
+                for (a, b, c) in itertools.permutations(range(3)):
+                    stop = False
+                    for i in range(1, lim + 1):
+                        for j in range(1, lim + 1):
+                            st = {"phase": 0, "ci": 0, "cin": False, "aj": 0, "reached": False}
+
+                            def nested(enabled, last, pend, st=st, a=a, b=b, c=c, K=K, i=i, j=j):
+                                def is_op(p, op):
+                                    return p is not None and p[0] == op and str(p[1]).lstrip("/") == K
+                                if st["phase"] == 0:      # a up to (not into) its store of K
+                                    if last == a and is_op(pend, "store"):
+                                        st["phase"] = 1
+                                    elif a in enabled:
+                                        return a
+                                    else:
+                                        st["phase"] = 1
+                                if st["phase"] == 1:      # b to completion
+                                    if b in enabled:
+                                        return b
+                                    st["phase"] = 2
+                                if st["phase"] == 2:      # c: i points into get(K)
+                                    if c in enabled:
+                                        if last == c:
+                                            if st["cin"]:
+                                                if pend is None or not str(pend[0]).startswith("fs:"):
+                                                    st["phase"] = 3
+                                                else:
+                                                    st["ci"] += 1
+                                                    if st["ci"] >= i:
+                                                        st["phase"] = 3
+                                                        st["reached"] = True
+                                            elif is_op(pend, "get"):
+                                                st["cin"] = True
+                                        if st["phase"] == 2:
+                                            return c
+                                    else:
+                                        st["phase"] = 3
+                                if st["phase"] == 3:      # a: j points into its store
+                                    if a in enabled:
+                                        if last == a:
+                                            st["aj"] += 1
+                                            if st["aj"] > j or (pend is not None and not str(pend[0]).startswith("fs:") and st["aj"] > 1):
+                                                st["phase"] = 4
+                                        if st["phase"] == 3:
+                                            return a
+                                    else:
+                                        st["phase"] = 4
+                                for t in (c, a, b):
+                                    if t in enabled:
+                                        return t
+                                return enabled[0]
+
+                            policy_box[0] = nested
+                            try:
+                                sch = run_schedule([])
+                            finally:
+                                policy_box[0] = None
+                            if not st["reached"]:
+                                stop = True
+                                break
+                            stats["directed"] = stats.get("directed", 0) + 1
+                            yield sch
+                        if stop:
+                            break
+
     for s in all_runs():
         stats["evaluations"] += 1
         h = hashlib.sha1(repr(s.trace).encode()).hexdigest()[:12]
